@@ -1189,14 +1189,14 @@ func rulePopInclusive(c *Ctx, r *Report) {
 // boolOrNilFact: facts at b contain load(<x>.typ.field) != nil (wantNil=false) or == nil (wantNil=true).
 func boolOrNilFact(c *Ctx, b *ssa.BasicBlock, typ, field string, wantNil bool) bool {
 	for f := range c.factsAt(b) {
-		bo, ok := f.cond.(*ssa.BinOp)
-		if !ok || !isNilConst(bo.Y) {
+		x, op, ok := nilCmp(f.cond)
+		if !ok {
 			continue
 		}
-		if _, ok := loadsField(bo.X, typ, field); !ok {
+		if _, ok := loadsField(x, typ, field); !ok {
 			continue
 		}
-		isNil := (bo.Op == token.EQL) == f.pol
+		isNil := (op == token.EQL) == f.pol
 		if isNil == wantNil {
 			return true
 		}
@@ -2325,4 +2325,188 @@ func ruleCatchDeclines(c *Ctx, r *Report) {
 		r.bad(rule, fname(handler)+"/decline", c.Pos(handler.Pos()), desc, "the handler never declines: every catch/3 would take every ball")
 	}
 	r.analysed(rule, fname(handler))
+}
+
+// ---------------------------------------------------------------------------
+// R-CONT-NOT-IN-LOOP (C12, C01; added after seed C12e): a built-in that offers several alternatives hands each
+// of them to the trampoline as a delayed function; the continuation runs when the trampoline forces one.  A
+// built-in that calls its continuation - directly or by passing it to Unify and the like - inside a loop of its
+// own body runs the rest of the query once per iteration BEFORE it returns: the promises it collected are
+// already evaluated, so the "stop" the consumer's continuation returns after Close is stored and ignored (goals
+// run after Close, the goroutine blocks on the next answer), a cut in the continuation comes too late, and the
+// answers are computed eagerly.  Checked: in every engine function with a continuation parameter, no call that
+// invokes the continuation or receives it as an argument lies in a block that is part of a CFG cycle of that
+// function's own body (closures are delayed code and are not looked at).
+func ruleContNotInLoop(c *Ctx, r *Report) {
+	const rule = "R-CONT-NOT-IN-LOOP"
+	desc := "a built-in does not run its continuation from inside a loop of its own body"
+	nfn, nbad := 0, 0
+	for _, fn := range c.LibFuncs() {
+		if funcPkg(fn) != c.Engine || fn.Parent() != nil {
+			continue
+		}
+		ks := paramsWhere(fn, c.isContType)
+		if len(ks) == 0 {
+			continue
+		}
+		nfn++
+		isK := func(v ssa.Value) bool {
+			for _, l := range c.originSet(v) {
+				for _, k := range ks {
+					if l == ssa.Value(k) {
+						return true
+					}
+				}
+			}
+			return false
+		}
+		seen := map[string]int{}
+		eachInstr(fn, func(in ssa.Instruction) {
+			call, ok := in.(*ssa.Call)
+			if !ok {
+				return
+			}
+			uses := !call.Call.IsInvoke() && isK(call.Call.Value)
+			for _, a := range call.Call.Args {
+				if c.isContType(a.Type()) && isK(a) {
+					uses = true
+				}
+			}
+			if !uses || !reachableFromSucc(in.Block(), in.Block()) {
+				return
+			}
+			nbad++
+			base := fname(fn) + "/" + calleeName(call.Common())
+			seen[base]++
+			r.bad(rule, fmt.Sprintf("%s#%d", base, seen[base]), c.at(in), desc, "the continuation is run (or handed to a callee that runs it) inside a loop: the rest of the query is executed once per iteration before the built-in returns, whatever the consumer asked for")
+		})
+	}
+	if nfn == 0 {
+		r.undecided(rule, "scan/builtins", "-", desc, "no function with a continuation parameter found")
+		return
+	}
+	if nbad == 0 {
+		r.ok(rule, "scan/builtins", "-", desc, fmt.Sprintf("%d functions with a continuation parameter examined; none uses it inside a loop of its own body", nfn), true)
+	}
+}
+
+// ---------------------------------------------------------------------------
+// R-ALT-SOURCE (C03; added after seed C03e): "if-then(-else) ... behave as ISO defines".  (C -> T ; E) is a
+// special form recognised by its SHAPE: a ;/2 whose first argument is a ->/2.  The iterator over the
+// alternatives of a disjunction applies that test to whatever it holds in its Alt field, round after round.
+// So it may only ever hold what the source holds: the term it was given and right-hand subterms of it.  An
+// iterator that BUILDS a disjunction (re-associating ((A ; B) ; C) into (A ; (B ; C)), say - harmless for
+// conjunctions) can manufacture the shape: ((C -> T ; E) ; F) becomes (C -> T ; (E ; F)), an if-then-else the
+// program does not contain, whose implicit cut discards F.  Checked: every value stored into altIterator.Alt
+// is nil, the old value, or the result of Arg(...) - never a constructed term.  Conservative: a re-association
+// that first excludes the special form would be reported as well.
+func ruleAltSource(c *Ctx, r *Report) {
+	const rule = "R-ALT-SOURCE"
+	desc := "the alternatives iterator keeps only subterms of its source term (it builds no disjunction)"
+	n := 0
+	for _, fn := range c.LibFuncs() {
+		if funcPkg(fn) != c.Engine {
+			continue
+		}
+		k := 0
+		eachInstr(fn, func(in ssa.Instruction) {
+			st, ok := in.(*ssa.Store)
+			if !ok {
+				return
+			}
+			fa, ok := st.Addr.(*ssa.FieldAddr)
+			if !ok || !isEngNamed(deref(fa.X.Type()), "altIterator") || fieldName(fa) != "Alt" {
+				return
+			}
+			if _, fresh := fa.X.(*ssa.Alloc); fresh {
+				return // construction of an iterator
+			}
+			n++
+			k++
+			key := fmt.Sprintf("%s/Alt-store#%d", fname(fn), k)
+			bad := ""
+			for _, l := range c.originSet(st.Val) {
+				if mi, ok := l.(*ssa.MakeInterface); ok {
+					l = mi.X
+				}
+				switch x := l.(type) {
+				case *ssa.Const:
+				case *ssa.Parameter:
+				case *ssa.Call:
+					if x.Call.IsInvoke() && x.Call.Method.Name() == "Arg" {
+						continue
+					}
+					if callee := x.Call.StaticCallee(); callee != nil && callee.Name() == "Resolve" {
+						continue
+					}
+					bad = "the result of " + calleeName(x.Common())
+				case *ssa.Alloc:
+					bad = "a term allocated here"
+				case *ssa.UnOp:
+					// a load of the iterator's own field or of a local
+				default:
+					bad = fmt.Sprintf("%T", l)
+				}
+			}
+			if bad == "" {
+				r.ok(rule, key, c.at(in), desc, "nil, or Arg(...) of the term held", true)
+			} else {
+				r.bad(rule, key, c.at(in), desc, "the iterator stores "+bad+": a disjunction built from parts of a nested one can have a (C -> T) from inside the nest as its first argument and is then taken for an if-then-else the program does not contain")
+			}
+		})
+	}
+	if n == 0 {
+		r.undecided(rule, "anchor:altIterator.Alt", "-", desc, "no store into altIterator.Alt found")
+	}
+}
+
+// ---------------------------------------------------------------------------
+// R-CALL-ALL-CLAUSES (C01; added after seed C01e): "clauses tried in database order".  The function that turns
+// the clauses of a procedure into the alternatives of a call makes one alternative per clause: in its loop
+// over the clauses no iteration returns to the loop header without having created the closure that runs the
+// clause (node-removal check).  A pre-filter ("this clause cannot match anyway") has to reproduce unification
+// for every representation a head argument is compiled to - a double-quoted string is compiled as a constant
+// and is a list - and is exactly where answers get lost.  Conservative: a sound first-argument index would be
+// reported too; this checker cannot verify one.
+func ruleCallAllClauses(c *Ctx, r *Report) {
+	const rule = "R-CALL-ALL-CLAUSES"
+	desc := "every clause of the procedure becomes an alternative of the call"
+	call := c.method("clauses", "call")
+	exec := c.method("VM", "exec")
+	if call == nil || exec == nil {
+		r.undecided(rule, "anchor:clauses.call/VM.exec", "-", "locate clauses.call and VM.exec", "not found")
+		return
+	}
+	// the closure that runs a clause: an anonymous function of call that calls exec
+	var mk *ssa.MakeClosure
+	eachInstr(call, func(in ssa.Instruction) {
+		m, ok := in.(*ssa.MakeClosure)
+		if !ok {
+			return
+		}
+		f, _ := m.Fn.(*ssa.Function)
+		if f == nil {
+			return
+		}
+		eachInstr(f, func(x ssa.Instruction) {
+			if cl, ok := x.(*ssa.Call); ok && cl.Call.StaticCallee() == exec {
+				mk = m
+			}
+		})
+	})
+	key := fname(call) + "/one-alternative-per-clause"
+	if mk == nil {
+		r.undecided(rule, key, c.Pos(call.Pos()), desc, "the closure that executes a clause was not recognised")
+		return
+	}
+	found, skips := loopIterationSkips(call, mk.Block(), map[*ssa.BasicBlock]bool{mk.Block(): true})
+	switch {
+	case !found:
+		r.bad(rule, key, c.at(mk), desc, "the closure is not created inside a loop over the clauses")
+	case skips:
+		r.bad(rule, key, c.at(mk), desc, "an iteration can return to the loop header without creating the alternative: that clause is never tried for this call")
+	default:
+		r.ok(rule, key, c.at(mk), desc, "node-removal check: without the block that creates the alternative the loop body cannot reach its back edge", true)
+	}
+	r.analysed(rule, fname(call))
 }
